@@ -1182,6 +1182,9 @@ class ManifestRecursiveLoader:
                     fpath = os.path.join(relpath, mname)
                     if fpath in self.loaded_manifests:
                         continue
+                    # an IGNOREd file is none of our business
+                    if dirdict.get(mname) is not None:
+                        continue
 
                     # we've just found ourselves a new Manifest,
                     # let's try to load it
